@@ -252,8 +252,21 @@ var ruleWalkDiscipline = &core.Rule{ID: "R03.2", Min: 6,
 		s.OK("forward range over all children", c.Pos(r.Load.Pos()), "index from 0 to len(children) step 1 ("+w.form+" form)")
 		// through blocks that only jump
 		skipJumps := func(b *ssa.BasicBlock) *ssa.BasicBlock {
-			for k := 0; k < 8 && len(b.Instrs) == 1; k++ {
-				if _, ok := b.Instrs[0].(*ssa.Jump); !ok {
+			for k := 0; k < 8; k++ {
+				// a block that only jumps, or the latch of an index loop (the increment of the loop's own counter, then a jump)
+				okBlk := len(b.Succs) == 1
+				for _, in := range b.Instrs {
+					switch x := in.(type) {
+					case *ssa.Jump, *ssa.DebugRef:
+					case *ssa.BinOp:
+						if !(x.Op == token.ADD && x.X == ssa.Value(r.Phi) && core.IsConstInt(x.Y, 1) && r.Phi != nil) {
+							okBlk = false
+						}
+					default:
+						okBlk = false
+					}
+				}
+				if !okBlk || b == r.Header {
 					break
 				}
 				b = b.Succs[0]
@@ -1261,7 +1274,7 @@ var ruleErrorReturns = &core.Rule{ID: "R02.5", Min: 6,
 			// returns
 			for _, r := range core.Returns(f) {
 				key := fmt.Sprintf("%s: %s", core.FName(f), returnOrdinal(r))
-				v0, v1 := spilled(r, 0), spilled(r, 1)
+				v0, v1 := viaResultHelper(spilled(r, 0)), viaResultHelper(spilled(r, 1))
 				switch {
 				case core.IsNilConst(v1):
 					s.Check(isFresh(cm.org(v0, 0)), key, c.Pos(r.Pos()), "success: fresh result, nil error", "a nil error is returned with a value that is not a detection result")
@@ -1305,6 +1318,9 @@ var ruleErrorReturns = &core.Rule{ID: "R02.5", Min: 6,
 					if g := call.Call.StaticCallee(); g != nil && isEntry(entries, g) {
 						s.OK(key, c.Pos(ex.Pos()), "passed through to the caller")
 						continue
+					}
+					if isResultHelperCall(call) {
+						continue // a helper that only pairs the sentinel with the caller's own error: no error of its own
 					}
 					tested := false
 					// the error may first be merged into an error variable (err of the other branch, nil after an excuse)
@@ -1577,7 +1593,7 @@ func errPathsDisciplined(err *ssa.Extract, f *ssa.Function) string {
 		}
 		switch t := b.Instrs[len(b.Instrs)-1].(type) {
 		case *ssa.Return:
-			if n := len(t.Results); n >= 1 && resolve(env, spilled(t, n-1)) == ssa.Value(err) {
+			if n := len(t.Results); n >= 1 && resolve(env, viaResultHelper(spilled(t, n-1))) == ssa.Value(err) {
 				return // the error is handed to the caller
 			}
 			if k == untested || k == nonNil {
@@ -1770,12 +1786,26 @@ func limZeroEdge(b *ssa.BasicBlock, lim ssa.Value, wantZero bool) bool {
 			continue
 		}
 		bo, ok := cond.(*ssa.BinOp)
-		if !ok || stripConv(bo.X) != lim || !core.IsConstInt(bo.Y, 0) {
+		if !ok {
 			continue
 		}
-		isZero := (bo.Op == token.EQL && val) || (bo.Op == token.NEQ && !val) || (bo.Op == token.GTR && !val) || (bo.Op == token.LEQ && val)
-		isNonZero := (bo.Op == token.EQL && !val) || (bo.Op == token.NEQ && val) || (bo.Op == token.GTR && val) || (bo.Op == token.LEQ && !val)
-		if wantZero && isZero || !wantZero && isNonZero {
+		// an unsigned limit against 0 or 1, in either operand order: == 0, <= 0, < 1 say "zero"; != 0, > 0, >= 1 "not zero"
+		op, x, kv := bo.Op, bo.X, bo.Y
+		if _, isC := bo.X.(*ssa.Const); isC {
+			x, kv = bo.Y, bo.X
+			op = map[token.Token]token.Token{token.LSS: token.GTR, token.GTR: token.LSS, token.LEQ: token.GEQ, token.GEQ: token.LEQ, token.EQL: token.EQL, token.NEQ: token.NEQ}[op]
+		}
+		k, isK := core.ConstInt(kv)
+		if stripConv(x) != lim || !isK {
+			continue
+		}
+		saysZero := (k == 0 && (op == token.EQL || op == token.LEQ)) || (k == 1 && op == token.LSS)
+		saysNonZero := (k == 0 && (op == token.NEQ || op == token.GTR)) || (k == 1 && op == token.GEQ)
+		if !saysZero && !saysNonZero {
+			continue
+		}
+		isZero := saysZero == val
+		if wantZero && isZero || !wantZero && !isZero {
 			return true
 		}
 	}
@@ -2276,4 +2306,48 @@ func (m *walkModel) copyBodies() []*nodeCopy {
 	}
 	add(m.chain, nil, nil)
 	return out
+}
+
+// viaResultHelper looks through a tiny result-building helper of the module: v is component #i of a call to a
+// function with a single return; when that component is a load of a package variable or one of the helper's
+// parameters, the load (an instruction of the helper) resp. the caller's argument stands for v. Anything else is v.
+func viaResultHelper(v ssa.Value) ssa.Value {
+	ex, ok := v.(*ssa.Extract)
+	if !ok {
+		return v
+	}
+	call, ok := ex.Tuple.(*ssa.Call)
+	if !ok {
+		return v
+	}
+	h := call.Call.StaticCallee()
+	if h == nil || !core.InMod(h) || h.Blocks == nil || len(h.Blocks) != 1 {
+		return v
+	}
+	rs := core.Returns(h)
+	if len(rs) != 1 || ex.Index >= len(rs[0].Results) {
+		return v
+	}
+	res := rs[0].Results[ex.Index]
+	if _, isLoad := core.LoadOfGlobal(res); isLoad {
+		return res
+	}
+	for i, p := range h.Params {
+		if res == ssa.Value(p) && i < len(call.Call.Args) {
+			return call.Call.Args[i]
+		}
+	}
+	return v
+}
+
+// isResultHelperCall: a call whose error component only hands one of its arguments back (not a source of errors).
+func isResultHelperCall(call *ssa.Call) bool {
+	for _, r := range *call.Referrers() {
+		if ex, ok := r.(*ssa.Extract); ok {
+			if viaResultHelper(ex) != ssa.Value(ex) {
+				return true
+			}
+		}
+	}
+	return false
 }
